@@ -143,6 +143,11 @@ try:
     round2 = open('/verif/design_round2.md').read()
 except OSError:
     round2 = ''
+for extra in ('/verif/design_round3.md', '/verif/design_round4.md'):
+    try:
+        round2 += "\n" + open(extra).read()
+    except OSError:
+        pass
 sec = sec.replace('{table}', table).replace('{npairs}', str(npairs)).replace('{rule_index}', rule_index).replace('{round2}', round2)
 if '### 10.6 Independently seeded changes' in s:
     i=s.index('### 10.6 Independently seeded changes'); j=s.index('## Appendix A')
